@@ -1,0 +1,5 @@
+//go:build !verif
+
+package file
+
+func verifPoint(site, path string) {}
